@@ -64,12 +64,28 @@ Inductive centry :=
 | CEGline (addr reason : string)       (* an IRCFromClient entry whose processing reached cmdGline's write *)
 | CEOther.                             (* anything else: does not touch the configuration *)
 
+(* FSM.applyRobustMessage on the configuration.  A Config entry takes effect only if it parses
+   AND its revision is the revision in force + 1 (commit b3bad2c: the handler that proposed it
+   may have compared the posted revision with a state that lagged behind the log, D20); any other
+   Config entry is skipped by every node (and its proposer gets "Revision mismatch"). *)
+Definition takes_effect (st : cstate) (e : centry) : bool :=
+  match e with
+  | CEConfig data rev =>
+      match toml_parse data with
+      | None => false
+      | Some _ => N.eqb rev (cs_rev st + 1)%N
+      end
+  | _ => false
+  end.
+
 Definition capply (st : cstate) (e : centry) : cstate :=
   match e with
   | CEConfig data rev =>
       match toml_parse data with
       | None => st                                         (* "Skipping unexpectedly invalid configuration" *)
-      | Some (b, bl) => mkC rev b bl (cs_leader st)
+      | Some (b, bl) =>
+          if N.eqb rev (cs_rev st + 1)%N then mkC rev b bl (cs_leader st)
+          else st                                          (* "Skipping configuration update with revision ..." *)
       end
   | CEGline a r => mkC (cs_rev st) (cs_base st) (ban_insert a r (cs_banned st)) (cs_leader st)
   | CEOther => st
@@ -78,12 +94,23 @@ Definition capply (st : cstate) (e : centry) : cstate :=
 Fixpoint creplay (l : list centry) (st : cstate) : cstate :=
   match l with [] => st | e :: r => creplay r (capply st e) end.
 
-(* a post handled by this node, its proposal applied before the next one is issued *)
-Definition cfg_step (st : cstate) (hdr body : string) : cstate :=
-  match post_config st hdr body with
+(* the revisions of the entries that take effect while a log is replayed, in order *)
+Fixpoint ceffects (l : list centry) (st : cstate) : list N :=
+  match l with
+  | [] => []
+  | e :: r => (if takes_effect st e then [cs_rev (capply st e)] else []) ++ ceffects r (capply st e)
+  end.
+
+(* a post answered by a handler that sees the state [view] — any state, e.g. a strict prefix
+   replay on a node that restarts — whose proposal is committed and applied on [st] *)
+Definition cfg_step_from (view st : cstate) (hdr body : string) : cstate :=
+  match post_config view hdr body with
   | CPropose d r => capply st (CEConfig d r)
   | _ => st
   end.
+
+(* a post handled by this node, its proposal applied before the next one is issued *)
+Definition cfg_step (st : cstate) (hdr body : string) : cstate := cfg_step_from st st hdr body.
 End Config.
 
 Arguments mkC {base} _ _ _ _.
